@@ -529,6 +529,10 @@ class Interp:
             l, r = self.eval(e.left, env), self.eval(e.right, env)
             if isinstance(e.op, (ast.Sub, ast.BitOr, ast.BitAnd)) and isinstance(l, (set, frozenset)) and isinstance(r, (set, frozenset)):
                 return {ast.Sub: l - r, ast.BitOr: l | r, ast.BitAnd: l & r}[type(e.op)]
+            if isinstance(e.op, ast.Add) and isinstance(l, str) and isinstance(r, str):
+                return "<fstring>" if "<fstring>" in (l, r) else l + r  # text built by concatenation (opaque parts stay opaque)
+            if isinstance(e.op, ast.Add) and isinstance(l, list) and isinstance(r, list):
+                return l + r
             num = lambda x: isinstance(x, (int, float)) and not isinstance(x, bool)
             if num(l) and num(r):
                 if isinstance(e.op, ast.Add):
@@ -693,6 +697,11 @@ class Interp:
                 return self.truth(args[0], e)
             if nm == "str" and len(args) == 1 and (isinstance(args[0], (int, str)) or args[0] is None):
                 return str(args[0])
+            if nm == "format" and 1 <= len(args) <= 2 and isinstance(args[0], (int, str)) and not isinstance(args[0], bool) and (len(args) == 1 or isinstance(args[1], str)):
+                try:
+                    return format(*args)
+                except (ValueError, TypeError):
+                    pass
             self.fail(e, f"call of {nm}")
         if isinstance(fn, ast.Attribute) and isinstance(fn.value, ast.Name) and fn.value.id == "itertools" and "itertools" not in env and fn.attr in ("count", "islice", "chain"):
             # itertools.count(...) is count(...)
